@@ -577,23 +577,28 @@ func EAP(t *rapid.T, domain bool) model.EAP {
 	}
 	switch kind {
 	case 1:
+		// data lengths around the places where the 16-bit packet length crosses an octet boundary (total = 5 + data)
 		e.Kind = model.EIdentity
-		e.Data = BytesLen(t, "eap.data", 1, 300, 1, 255)
+		e.Data = BytesLen(t, "eap.data", 1, 1100, 1, 250, 251, 252, 255, 505, 506, 507, 508, 761, 762, 1018, 1019, 1020)
 	case 2:
 		e.Kind = model.ENotification
-		e.Data = BytesLen(t, "eap.data", 1, 300, 1)
+		e.Data = BytesLen(t, "eap.data", 1, 1100, 1, 250, 251, 252, 506, 507)
 	case 3:
 		e.Kind = model.ENak
-		e.Data = BytesLen(t, "eap.data", 1, 40, 1)
+		e.Data = BytesLen(t, "eap.data", 1, 600, 1, 250, 251, 252, 506, 507)
 	case 4:
 		e.Kind = model.EExpanded
-		if rapid.Bool().Draw(t, "eap.5g") {
+		switch v := rapid.IntRange(0, 7).Draw(t, "eap.vendorclass"); {
+		case v <= 3:
 			e.VendorID, e.VendorType = 10415, 3
-		} else {
+		case v == 4:
+			// IETF vendor id 0 with a type that also exists as a native EAP method (RFC 3748 5.7), or its neighbours
+			e.VendorID, e.VendorType = 0, rapid.SampledFrom([]uint32{0, 1, 2, 3, 4, 50, 254, 255}).Draw(t, "eap.vtype0")
+		default:
 			e.VendorID = uint32(rapid.IntRange(0, 1<<24-1).Draw(t, "eap.vid"))
 			e.VendorType = rapid.Uint32().Draw(t, "eap.vtype")
 		}
-		e.Data = BytesLen(t, "eap.vdata", 0, 600, 0, 2, 4)
+		e.Data = BytesLen(t, "eap.vdata", 0, 1100, 0, 1, 2, 4, 243, 244, 245, 498, 499, 500, 501, 1011, 1012)
 	default:
 		e.Kind = model.EAka
 		e.Sub = u8(t, "aka.sub")
